@@ -3,6 +3,7 @@
 //   - the reader never sees anything but the old contents or the complete data of one call
 //   - different directories / different names: each destination ends with exactly its data
 //   - same name: the destination ends with the complete data of one of the calls
+//
 // Prints one line per violated round ("BAD ...") and a summary "DONE rounds=.. bad=..".
 package main
 
@@ -13,6 +14,7 @@ import (
 	"os"
 	"sync"
 	"sync/atomic"
+	"syscall"
 
 	"github.com/goose-lang/goose/machine/filesys"
 )
@@ -127,6 +129,17 @@ func main() {
 				report("%s round %d: final contents (%d bytes) are not the complete data of either call", scenario, r, len(fa))
 			}
 			if root != "" {
+				// DirFs keeps a descriptor on its root directory and has no way to give it back
+				if ents, err := os.ReadDir("/proc/self/fd"); err == nil {
+					for _, e := range ents {
+						if l, err := os.Readlink("/proc/self/fd/" + e.Name()); err == nil && l == root {
+							var n int
+							if _, err := fmt.Sscanf(e.Name(), "%d", &n); err == nil {
+								syscall.Close(n)
+							}
+						}
+					}
+				}
 				os.RemoveAll(root)
 			}
 		}
